@@ -84,7 +84,7 @@ CHECKS = {
     ),
     "C14": dict(
         engine="domwalk", category="exploration",
-        technique="bounded-exhaustive enumeration: every message shape of the 16 kinds (element counts 0,1,2,limit and limit+1 refused; each scalar over its boundary alphabet) x 11 protocol versions (every version at which an encoding changes and its predecessor, 70013 down to 209; fields a version does not carry must come back zero, messages a version does not know must be refused and all others must not) through WriteMessage/ReadMessage (round trip + byte-identical re-encoding); for every seed frame with <=2 elements every single-bit flip (inside the command field: refused unless a known command results), every truncation, 8 length-field values, every payload bit flip / truncation / varint splice at every position with recomputed checksum, splices between every ordered pair of kinds at every cut, wrong magic, bad checksum, unknown and invalid-UTF-8 command; oracle: no panic, bounded reads, allocation <= payload limit + slack, the four rejection classes return errors; a decoder that kills the process is caught through a per-case progress file",
+        technique="bounded-exhaustive enumeration: every message shape of the 16 kinds (element counts 0,1,2,limit and limit+1 refused; each scalar over its boundary alphabet) x 11 protocol versions (every version at which an encoding changes and its predecessor, 70013 down to 209; fields a version does not carry must come back zero, a message may be refused only below the version that introduced it) through WriteMessage/ReadMessage (round trip + byte-identical re-encoding); for every seed frame with <=2 elements every single-bit flip (inside the command field: refused unless a known command results), every truncation, 8 length-field values, every payload bit flip / truncation / varint splice at every position with recomputed checksum, splices between every ordered pair of kinds at every cut, wrong magic, bad checksum, unknown and invalid-UTF-8 command; oracle: no panic, bounded reads, allocation <= payload limit + slack, the four rejection classes return errors; a decoder that kills the process is caught through a per-case progress file",
         text="Complete within the stated shape and mutation alphabets (about 330 000 decodes per quick run; the thorough tier adds every value of every payload byte, every pair of payload bit flips for payloads up to 96 bytes and splices at every pair of cuts, 8 million decodes); raw random bytes are sampling and are not done. The allocation bound is checked under wire.SetLimits(1 MB).",
         design="§3 C14",
     ),
